@@ -98,31 +98,78 @@ func (e *Engine) evalContract(st *State, fn *ssa.Function, args []Val, assume bo
 	outs := e.execFunc(s2, fn, args, nil, 1)
 	e.paths = savedPaths
 	res := tFalse
-	orig := map[int]Obj{}
-	for id, ob := range st.objs {
-		orig[id] = ob
+	// texts bound by BufIs / SameText in assume mode, per outcome: equal on all outcomes -> bound as is, else a
+	// guarded alternative (the outcomes' conditions are mutually exclusive and, res being assumed, exhaustive)
+	type bind struct {
+		cond *Term
+		text []Piece
 	}
+	bufB := map[int][]bind{}
+	txtB := map[string][]bind{}
+	var bufOrder []int
+	var txtOrder []string
 	for _, o := range outs {
 		r := asTerm(o.ret[0])
 		extra := o.st.pc[n0:]
 		res = Or(res, And(append(append([]*Term{}, extra...), r)...))
-		if assume && !r.IsFalse() {
-			for k, v := range o.st.text {
-				if _, ok := st.text[k]; !ok {
-					st.text[k] = v
+		if !assume || r.IsFalse() {
+			continue
+		}
+		cond := And(append(append([]*Term{}, extra...), r)...)
+		for k, v := range o.st.text {
+			if _, ok := st.text[k]; !ok {
+				if _, seen := txtB[k]; !seen {
+					txtOrder = append(txtOrder, k)
 				}
+				txtB[k] = append(txtB[k], bind{cond, v})
 			}
 		}
-		if assume && !r.IsFalse() {
-			// propagate buffer bindings made by BufIs back into the caller's state
-			for id, ob := range o.st.objs {
-				if b, ok := ob.(*BufObj); ok {
-					if old, ok2 := orig[id].(*BufObj); ok2 && textString(old.Text) != textString(b.Text) {
-						st.objs[id] = b
+		// buffer bindings made by BufIs
+		for id, ob := range o.st.objs {
+			if b, ok := ob.(*BufObj); ok {
+				if old, ok2 := st.objs[id].(*BufObj); ok2 && textString(old.Text) != textString(b.Text) {
+					if _, seen := bufB[id]; !seen {
+						bufOrder = append(bufOrder, id)
 					}
+					bufB[id] = append(bufB[id], bind{cond, b.Text})
 				}
 			}
 		}
+	}
+	merge := func(bs []bind) []Piece {
+		same := true
+		for _, b := range bs[1:] {
+			if textString(b.text) != textString(bs[0].text) {
+				same = false
+			}
+		}
+		if same {
+			return bs[0].text
+		}
+		var alts []alt
+		for _, b := range bs {
+			alts = append(alts, alt{Cond: b.cond, P: b.text})
+		}
+		return []Piece{{K: "alt", Alts: alts}}
+	}
+	nAssumed := 0
+	for _, o := range outs {
+		if assume && !asTerm(o.ret[0]).IsFalse() {
+			nAssumed++
+		}
+	}
+	for _, k := range txtOrder {
+		if len(txtB[k]) == nAssumed {
+			st.text[k] = merge(txtB[k])
+		}
+	}
+	for _, id := range bufOrder {
+		if len(bufB[id]) != nAssumed {
+			// bound on some paths of the clause only: nothing is known about the text in general
+			continue
+		}
+		old := st.objs[id].(*BufObj)
+		st.objs[id] = &BufObj{Base: old.Base, Alias: old.Alias, Text: merge(bufB[id])}
 	}
 	return res
 }
@@ -291,14 +338,9 @@ func (e *Engine) enterLoopHeader(st *State, fr *Frame, h *ssa.BasicBlock, ord in
 	}
 	// map objects written in the loop are havocked as well
 	for id, ob := range st.objs {
-		if m, ok := ob.(*MapObj); ok {
-			ks := sortOf(&Term{W: m.KeyW})
-			nm := &MapObj{Dom: SymSort(fresh("mapdom"), "(Array "+ks+" Bool)"), Vals: map[string]*Term{}, KeyW: m.KeyW, ValT: m.ValT, Own: m.Own}
-			if _, isPtr := m.ValT.Underlying().(*types.Pointer); isPtr {
-				// the value array exists from now on (a lazily created one would differ between the invariant's
-				// evaluation and the code's later reads)
-				nm.Vals["p"] = SymSort(fresh("mapval"), "(Array "+ks+" Ref)")
-			}
+		if m, ok := ob.(*MapObj); ok && (fx.maps || fx.all) {
+			nm := newMapObj(m.T, true)
+			nm.Own = m.Own
 			st.objs[id] = nm
 		}
 	}
@@ -313,8 +355,14 @@ func (e *Engine) enterLoopHeader(st *State, fr *Frame, h *ssa.BasicBlock, ord in
 	fr.inLoop[h] = true
 	st.cut = true
 	st.raiseWatermark()
-	a := e.evalContract(st, inv, e.bindByName(st, fr, inv), true)
+	invArgs := e.bindByName(st, fr, inv)
+	a := e.evalContract(st, inv, invArgs, true)
 	st.assumeT(a)
+	for _, v := range invArgs {
+		if t, ok := v.(*Term); ok && t.W == 64 && !t.IsConst() {
+			st.instantiateLoose(t) // loop counters and bounds named by the invariant
+		}
+	}
 	if !e.inc.Sat(st.pc) {
 		fail("invariant %s is unsatisfiable after havoc (vacuous)", inv.Name())
 	}
@@ -377,8 +425,17 @@ func (e *Engine) vspecCall(st *State, fr *Frame, name string, args []Val) ([]Out
 	case "SameText":
 		s := args[0].(SliceV)
 		a, known := e.textOf(st, s)
-		if st.assume && !known && isZero(s.Off) {
-			st.text[s.Base.String()] = txt(args[1])
+		if st.assume && !known {
+			want := txt(args[1])
+			if isZero(s.Off) {
+				st.text[s.Base.String()] = want
+			} else {
+				st.text[viewKey(s)] = want
+			}
+			if len(want) == 1 && want[0].K == "app" && len(a) == 1 && a[0].K == "raw" {
+				// also as a formula, for places that reach the same bytes through other terms
+				return one(Eq(viewTextID(a[0]), appTextID(want[0])))
+			}
 			return one(tTrue)
 		}
 		e.installUnfold(st)
@@ -410,6 +467,7 @@ func (e *Engine) vspecCall(st *State, fr *Frame, name string, args []Val) ([]Out
 		}
 		guarded := Implies(And(SLe(lo, bv), SLt(bv, hi)), body)
 		if skolem {
+			st.root.instantiateLoose(bv)
 			done := map[string]bool{}
 			for _, rd := range s2.trace.reads {
 				for _, f := range allQFacts {
@@ -419,8 +477,7 @@ func (e *Engine) vspecCall(st *State, fr *Frame, name string, args []Val) ([]Out
 					inst := Implies(f.QF, subst(f.Body, f.BV.Leaf, Sub(rd.abs, f.Shift)))
 					if k := inst.String(); !done[k] {
 						done[k] = true
-						auxTerms.Store(inst, true)
-						st.root.pc = append(st.root.pc, inst)
+						st.root.addInst(inst)
 					}
 				}
 			}
@@ -428,20 +485,18 @@ func (e *Engine) vspecCall(st *State, fr *Frame, name string, args []Val) ([]Out
 		}
 		// name the quantified formula: qf <=> forall k. guarded  (the axiom travels with the symbol, see Script)
 		all := Forall(bv, guarded)
-		qf := &Term{Leaf: fresh("qf"), W: 0, QDef: all}
-		seenF := map[string]bool{}
-		for _, rd := range s2.trace.reads {
-			shift := subst(rd.abs, bv.Leaf, BVu(0, 64))
-			if Add(shift, bv).String() != rd.abs.String() && Add(bv, shift).String() != rd.abs.String() {
-				continue // not of the form shift + k: left to the solver
+		if freeBound(guarded, map[string]bool{bv.Leaf: true}) {
+			all.hasBound = true
+			for _, rd := range s2.trace.reads {
+				if rd.abs.hasBound {
+					all.QReads = append(all.QReads, rd)
+				}
 			}
-			id := rd.key + "|" + shift.String()
-			if seenF[id] {
-				continue
-			}
-			seenF[id] = true
-			allQFacts = append(allQFacts, &QFact{QF: qf, Key: rd.key, Shift: shift, BV: bv, Body: guarded})
+			// a quantifier nested in another one and depending on its variable cannot be named by a constant
+			return one(all)
 		}
+		qf := &Term{Leaf: fresh("qf"), W: 0, QDef: all}
+		registerQFacts(qf, bv, guarded, s2.trace.reads)
 		return one(qf)
 	case "ForallKeys":
 		// ForallKeys(m, p): p(k) for every key k (of the key type's full range; p itself says "if present")
@@ -478,6 +533,13 @@ func (e *Engine) vspecCall(st *State, fr *Frame, name string, args []Val) ([]Out
 		qf := &Term{Leaf: fresh("qf"), W: 0, QDef: all}
 		allQFacts = append(allQFacts, &QFact{QF: qf, Key: fmt.Sprintf("map|%d", mv.ID), Shift: BVu(0, 64), BV: bv, Body: body})
 		return one(qf)
+	case "BufOld":
+		_, id := e.bufOf(st, args[0])
+		old, ok := st.bufOld[id]
+		if !ok {
+			fail("vspec.BufOld of a buffer that is not a parameter")
+		}
+		return one(TextV{old})
 	case "BufIs":
 		b, id := e.bufOf(st, args[0])
 		want := txt(args[1])
@@ -640,9 +702,135 @@ func (e *Engine) instantiateAtReads(st *State, reads []traceRead) {
 			inst := Implies(f.QF, subst(f.Body, f.BV.Leaf, Sub(rd.abs, f.Shift)))
 			if k := inst.String(); !done[k] {
 				done[k] = true
-				auxTerms.Store(inst, true)
-				st.root.pc = append(st.root.pc, inst)
+				st.root.addInst(inst)
 			}
 		}
 	}
+}
+
+// freeBound reports whether t mentions a quantifier-bound variable not in own (and not bound inside t itself).
+func freeBound(t *Term, own map[string]bool) bool {
+	if t.C != nil || (!t.hasBound && !t.hasQ) {
+		return false
+	}
+	if t.Op == "" {
+		return t.hasBound && !own[t.Leaf]
+	}
+	if t.Op == "forall" {
+		inner := map[string]bool{t.Args[0].Leaf: true}
+		for k := range own {
+			inner[k] = true
+		}
+		return freeBound(t.Args[1], inner)
+	}
+	for _, a := range t.Args {
+		if freeBound(a, own) {
+			return true
+		}
+	}
+	return false
+}
+
+// registerQFacts remembers, for the named quantified formula qf <=> forall bv. body, the memory its body reads at
+// an index of the form shift + bv, so that the engine can instantiate it where that memory is read.
+func registerQFacts(qf, bv, body *Term, reads []traceRead) {
+	seenF := map[string]bool{}
+	loose := len(reads) == 0
+	for _, rd := range reads {
+		shift := subst(rd.abs, bv.Leaf, BVu(0, 64))
+		if Add(shift, bv).String() != rd.abs.String() && Add(bv, shift).String() != rd.abs.String() {
+			// not of the form shift + k (k scaled, or behind a case split): no read site determines the instance;
+			// the fact is instantiated at loop counters and at the skolem constants of goals instead
+			if rd.abs.hasBound {
+				loose = true
+			}
+			continue
+		}
+		id := rd.key + "|" + shift.String()
+		if seenF[id] {
+			continue
+		}
+		seenF[id] = true
+		qfMu.Lock()
+		allQFacts = append(allQFacts, &QFact{QF: qf, Key: rd.key, Shift: shift, BV: bv, Body: body})
+		qfMu.Unlock()
+	}
+	if loose {
+		qfMu.Lock()
+		looseQFacts = append(looseQFacts, &QFact{QF: qf, BV: bv, Body: body})
+		qfMu.Unlock()
+	}
+}
+
+// instantiateLoose assumes, in state s, the instances at index term k of the active quantified facts whose
+// instances no memory read determines.
+func (s *State) instantiateLoose(k *Term) {
+	if k.W != 64 || len(s.qfActive) == 0 {
+		return
+	}
+	qfMu.Lock()
+	fs := append([]*QFact{}, looseQFacts...)
+	qfMu.Unlock()
+	for n, f := range fs {
+		if !s.qfActive[f.QF.Leaf] {
+			continue
+		}
+		id := fmt.Sprintf("L%d|%s", n, k.String())
+		if s.qdone == nil {
+			s.qdone = map[string]bool{}
+		}
+		if s.qdone[id] {
+			continue
+		}
+		s.qdone[id] = true
+		s.addInst(Implies(f.QF, subst(f.Body, f.BV.Leaf, k)))
+	}
+}
+
+var liftCache = map[string]*Term{}
+
+// liftInner names the closed quantified subformulas of an instance (inner quantifiers of a nested Forall become
+// closed once the outer variable is instantiated), so that they take part in engine-side instantiation.
+func liftInner(t *Term) *Term {
+	if t.C != nil || t.Op == "" || (!t.hasQ && !t.hasBound) {
+		return t
+	}
+	if t.Op == "forall" {
+		if t.hasBound || len(t.QReads) == 0 || freeBound(t, map[string]bool{}) {
+			return t
+		}
+		k := t.String()
+		qfMu.Lock()
+		q, ok := liftCache[k]
+		qfMu.Unlock()
+		if ok {
+			return q
+		}
+		q = &Term{Leaf: fresh("qf"), W: 0, QDef: t}
+		registerQFacts(q, t.Args[0], t.Args[1], t.QReads)
+		qfMu.Lock()
+		liftCache[k] = q
+		qfMu.Unlock()
+		return q
+	}
+	changed := false
+	args := make([]*Term, len(t.Args))
+	for i, a := range t.Args {
+		args[i] = liftInner(a)
+		if args[i] != a {
+			changed = true
+		}
+	}
+	if !changed {
+		return t
+	}
+	switch t.Op {
+	case "and":
+		return And(args...)
+	case "or":
+		return Or(args...)
+	case "not":
+		return Not(args[0])
+	}
+	return finish(&Term{Op: t.Op, Args: args, W: t.W, Sort: t.Sort})
 }
